@@ -242,3 +242,42 @@ Example C20_ed_example :
   /\ (5 * zv (ay fe_ops ed_base) - 4) mod ed_p = 0.
 Proof. split; [vm_compute; reflexivity|]. split; vm_compute; reflexivity. Qed.
 Print Assumptions C20_ed_example.
+
+(* ---- point decoding (Models/EdCodec.v: FromBytes) *)
+From DosVerif Require Import Models.EdCodec Proofs.EdCodecProofs Proofs.EdCodecInstance.
+
+(* whatever the decoder accepts is a well-formed point ON THE CURVE with the ordinate the bytes carry
+   and x of the announced parity (or x = -x); over any field with a square root of -1; nothing is
+   assumed about the exponentiation that proposes the root - the code checks v x^2 = +-u itself *)
+Theorem C20_decoded_on_curve :
+  forall (K : Type) (O : Fops K), Flaws O -> forall (d sqrtm1 : K) (parity : K -> bool),
+  fmul O sqrtm1 sqrtm1 = fopp O (f1 O) ->
+  forall (e : positive) (y : K) (neg : bool) (p : ext (K:=K)),
+  decode_y O d sqrtm1 parity e y neg = Some p ->
+  ext_ok O p /\ on_curve O d p /\ ay O p = y /\
+  (parity (ax O p) = neg \/ parity (fopp O (ax O p)) <> neg).
+Proof. exact (@decoded_on_curve). Qed.
+Print Assumptions C20_decoded_on_curve.
+
+(* on canonical input - 32 bytes, ordinate below p, x = 0 not announced as odd - what the decoder
+   accepts the encoder writes back unchanged: point encodings round-trip through decode-then-encode,
+   and two different canonical strings never decode to the same point *)
+Theorem C20_decode_then_encode :
+  forall (s : list N) (p : ext (K:=Fe)),
+  ed_decode s = Some p -> bytes_ok s -> le_val s mod 2 ^ 255 < ed_p ->
+  (zv (eX p) <> 0 \/ Z.odd (le_val s / 2 ^ 255) = false) ->
+  ed_encode p = s.
+Proof. exact ed_decode_then_encode. Qed.
+Print Assumptions C20_decode_then_encode.
+
+Corollary C20_decode_injective_on_canonical :
+  forall (s1 s2 : list N) (p : ext (K:=Fe)),
+  ed_decode s1 = Some p -> ed_decode s2 = Some p ->
+  bytes_ok s1 -> bytes_ok s2 -> le_val s1 mod 2 ^ 255 < ed_p -> le_val s2 mod 2 ^ 255 < ed_p ->
+  zv (eX p) <> 0 -> s1 = s2.
+Proof.
+  intros s1 s2 p D1 D2 B1 B2 C1 C2 X.
+  rewrite <- (ed_decode_then_encode s1 p D1 B1 C1 (or_introl X)).
+  exact (ed_decode_then_encode s2 p D2 B2 C2 (or_introl X)).
+Qed.
+Print Assumptions C20_decode_injective_on_canonical.
